@@ -28,6 +28,7 @@ type gxTrace struct {
 	runs  []gxRun
 	progs map[string]*genexec.Prog
 	stats map[string]int
+	bad   []*genexec.Prog // programs whose generated function does not compile (C01's business)
 }
 
 var reHW = regexp.MustCompile(`^<<"HW", (\d+), (\d+)>>`)
@@ -214,6 +215,7 @@ func gxRecord(c *core.Ctx, progs []*genexec.Prog) *gxTrace {
 			for _, p := range pk.progs {
 				if bp[p.Name] {
 					t.stats["functions_not_compiling"]++
+					t.bad = append(t.bad, p)
 				} else {
 					ps = append(ps, p)
 				}
@@ -442,6 +444,54 @@ func gxDeviation(p *genexec.Prog, r gxRun, trace []string, at int) string {
 		return "nil-pointer-on-mapped-path"
 	}
 	return ""
+}
+
+// gxCompileSide is C01 over the programs of GenExec: every program the tool accepts must yield a function that
+// compiles. Suspects (diagnostics attributed by position while the run-time side is built) are generated again
+// alone, in a package of their own, and judged by go build there.
+func gxCompileSide(c *core.Ctx) {
+	keep := 6
+	if c.Thorough() {
+		keep = 1
+	}
+	progs := gxPrograms(c, keep)
+	t := gxRecord(c, progs)
+	c.AddCount("programs", int64(t.stats["functions"]+len(t.bad)))
+	tool := c.EnsureTool()
+	root := filepath.Join(c.Scratch, "gxiso")
+	core.NewModule(root, "gxm")
+	_ = core.WriteFiles(root, map[string]string{"vrt/vrt.go": genexec.VrtSrc})
+	reported := 0
+	for k, p := range t.bad {
+		if reported >= 25 {
+			break
+		}
+		pkg := fmt.Sprintf("iso%03d", k)
+		var setup strings.Builder
+		setup.WriteString("//go:build convergen\n\npackage " + pkg + "\n\ntype Convergen interface {\n")
+		for _, n := range p.Notes() {
+			setup.WriteString("\t// " + n + "\n")
+		}
+		setup.WriteString("\t" + p.Method() + "\n}\n")
+		files := map[string]string{pkg + "/setup.go": setup.String(),
+			pkg + "/shared.go": "package " + pkg + "\n\nimport \"gxm/vrt\"\n" + genexec.SharedSrc + "\n" + p.Decls()}
+		_ = core.WriteFiles(root, files)
+		r := tool.Run(core.RunOpts{Dir: filepath.Join(root, pkg), Args: []string{"setup.go"}})
+		if r.Exit != 0 || r.TimedOut {
+			continue // refused when alone: nothing was emitted
+		}
+		so, se, code := core.RunCmd(root, core.GoEnv(), "go", "build", "-gcflags=-e", "./"+pkg)
+		if code == 0 {
+			continue // does not reproduce in isolation: not a verdict
+		}
+		gen, _ := os.ReadFile(filepath.Join(root, pkg, "setup.gen.go"))
+		files[pkg+"/setup.gen.go"] = string(gen)
+		js, _ := json.Marshal(p)
+		path := c.WriteReplay(core.HashID("gx"+string(js)), &core.ReplayFile{Family: "genexec-compile", Case: js, Files: files, Command: []string{"convergen", "setup.go"},
+			Observed: map[string]any{"exit": r.Exit, "go build": firstLines(so+se, 6)}, Expected: "a function that compiles, or a refusal", Diff: firstLine(so + se)})
+		c.Report("", fmt.Sprintf("program %s: the tool exits 0 and the generated function does not compile: %s", p.Describe(), firstLine(strings.TrimSpace(strings.TrimPrefix(strings.TrimSpace(so+se), "# gxm/"+pkg)))), path)
+		reported++
+	}
 }
 
 func gxCommon(c *core.Ctx, cfg, what string, staticSideExists bool, nontrivial func(gxRun) bool) {
